@@ -15,7 +15,7 @@ CHECKS = {
              "start, 5 dtypes, euclidean/manhattan/callable metric) is then run on the TLC-enumerated inputs with the iteration and "
              "PAM-update functions wrapped; each recorded intermediate and final state is validated by TLC against the actions and "
              "SelfConsistent; inputs are compared bitwise before/after.",
-        note="integer-lattice data of distinct points (exact L1/Linf, squared L2); exhaustive within N<=4..5 points, K<=3..4; seeded random sets up to 40 points in the thorough tier; ties may be labelled either way",
+        note="integer-lattice data of distinct points (exact L1/Linf, squared L2), multiplied by a rotating power of two (1, 2^-30, 2^12) and laid out C-ordered / Fortran-ordered / as a strided view; exhaustive within N<=4..5 points, K<=3..4 plus n_clusters > N; 500 seeded random 1-3-dimensional sets (<=14 points) in the quick tier, 15000 (<=40 points) in the thorough tier; every mutable input watched; ties may be labelled either way",
         ref="6/C01"),
     "C02": dict(
         technique="TLA+ spec KCenters.tla model-checked with TLC (greedy guard, RadiusMonotone, TwoApprox vs brute-force optimum, StopExact, ShortcutExact); TLC trace validation of every iteration of the real k-centers",
@@ -25,7 +25,7 @@ CHECKS = {
              "The real kcenters()/KCenters.fit() is run on every enumerated (data, metric, n_clusters, cutoff, shortcut, init_centers) with "
              "_kcenters_iteration wrapped; each recorded iteration must be an instance of Iterate (chosen frame in the arg-max set, guard "
              "true, distances = plain update, labels admissible), the final result must falsify the guard.",
-        note="as C01; 2-approximation is relative to the optimum with centers among the frames; the estimator form has no shortcut switch",
+        note="as C01; warm starts from frames and from centers that are not frames (each owning a frame), as ndarray or as a list object shared by the repeated execution; 2-approximation is relative to the optimum with centers among the frames; the estimator form has no shortcut switch",
         ref="6/C02"),
     "C03": dict(
         technique="TLA+ spec (Counts.tla) model-checked with TLC; spec->code replay of every TLC-enumerated input",
@@ -33,7 +33,7 @@ CHECKS = {
              "the cardinality definition of lagged pairs (Exact, Square, Total, NoLeak, Additive), then every "
              "enumerated input is replayed into the real assigns_to_counts in ragged / padded / permuted / split / "
              "int32 forms and compared with the matrix TLC computed.",
-        note="exhaustive within <=3 trajectories, length <=3..8, lag <=2..5 (see evidence tlc_runs); trusts TLC, the "
+        note="exhaustive within <=3 trajectories, length <=3..8, lag <=2..5 (see evidence tlc_runs); every case also under an order-preserving injection of the state ids into ids near 70000 (int32/int64) and 200 (int16); trusts TLC, the "
              "PySlice module (self-tested against CPython) and the JSON emission path",
         ref="6/C03"),
     "C04": dict(
@@ -44,7 +44,7 @@ CHECKS = {
              "in scope; the driver replays each into the real builders for ndarray and the seven sparse-matrix formats with both "
              "calculate_eq_probs settings and compares values (1e-12/1e-9), container types and the caller's matrix. builders.mle "
              "is run in every container, its outputs recorded as scaled integers and validated by TLC against MLE.tla.",
-        note="exhaustive within n<=3, entries <=3 (quick) / <=4,<=2 (thorough); sparse arrays (csr_array, ...) are outside the property's quantifier; stationarity only where the chain is strongly connected",
+        note="exhaustive within n<=3, entries <=3 (quick) / <=4,<=2 (thorough) x element type of the caller's matrix x 9 containers (COO with repeated coordinates included) x prior None / 1 / 1/2 / matrix of ones, plus large structured families around every size threshold of the eigen-solver paths; sparse arrays (csr_array, ...) are outside the property's quantifier; stationarity only where the chain is strongly connected",
         ref="6/C04"),
     "C05": dict(
         technique="TLA+ specs Ragged.tla/RaggedRead.tla (list-of-rows Get vs step-level transcription of the flat-offset arithmetic) model-checked with TLC; spec->code replay of every emitted (shape, index expression); TLC trace validation of the reads of test_ra.py",
@@ -65,7 +65,7 @@ CHECKS = {
              "(thorough) and simulated walks of length 6; the driver applies each history to a real object built in three ways and after "
              "EVERY step compares iteration, flatten+lengths, starts, row and element reads, ==, max/min, size, shape, the previous object "
              "and the caller's buffer with the specification state.",
-        note="integer elements; shape-preserving write grammar of DESIGN.md 6/C06; shapes <=3 rows x length <=3; index expressions invalid on a list of rows are C05's subject",
+        note="integer elements; shape-preserving write grammar of DESIGN.md 6/C06 plus column-range masks; shapes <=3 rows x length <=3; six copying constructor forms with every caller buffer watched; index expressions invalid on a list of rows are C05's subject",
         ref="6/C06"),
     "C07": dict(
         technique="TLA+ spec Committor.tla (exact rational transcription of committors/mfpts step by step, first-step invariants) model-checked with TLC + spec->code replay of every emitted (chain, sources, sinks, lag) in dense/csr/lil/csc containers; TLC trace validation (Trace_Committor.tla) of recorded runs on larger random chains",
@@ -167,7 +167,7 @@ CHECKS = {
              "method) and round-tripped through save/load. Outputs of eigenspectrum / eq_probs / implied_timescales / synthetic_ensemble on "
              "TLC-enumerated chains are validated by TLC against eigen-equations, stationarity, trace, -lag/ln(lambda) on rational "
              "eigenvalues (ln table) and exact rational propagation.",
-        note="assignment sets <=2 trajectories, length <=3..5; spectral relations at 1e-4..1e-6 (timescales 1e-2) because of 32-bit integers; eigenvalues of non-reversible chains only ordered",
+        note="assignment sets <=2 trajectories, length <=3..5; spectral relations at 1e-4..1e-6 (timescales 1e-2) because of 32-bit integers; eigenvalues of non-reversible chains only ordered; plus TrimMapping.tla / MSMLife.tla: operation histories of the mapping object and of the estimator life cycle (New, set_params, Fit/Refit, Save, Load, ==) replayed step by step",
         ref="6/C16"),
     "C17": dict(
         technique="TLA+ specs WidestPath.tla (Dijkstra-style machine vs brute force over all simple paths) and Paths.tla (peeling loop) model-checked with TLC; spec->code replay of top_path and TLC trace validation (Trace_Paths.tla) of every recorded paths() run",
@@ -193,7 +193,7 @@ CHECKS = {
         technique="TLA+ heap/purity model (Purity.tla) over a routine table extracted from the current source, model-checked with TLC; TLC-enumerated call histories replayed under a poisoning numpy allocator",
         text="harness/extract/masked_sites.py lists every masked element-wise call and uninitialised allocation of the current source; TLC "
              "decides by self-composition over all masks and heap histories at which sites a result can read uninitialised cells. TLC then "
-             "enumerates histories (poison pattern, <=2 prior calls, 1/2/4/16 threads) x 54 routines x argument sets; each is replayed in "
+             "enumerates histories (poison pattern, <=2 prior calls, 1/2/4/16 threads) and calls (570 routine variants x argument sets: options, containers, element types, layouts, long inputs for the OpenMP kernels); a seed-rotated section of calls x histories is replayed in "
              "a worker process whose numpy allocator fills fresh blocks with the pattern, and result bits and argument bits are compared "
              "with a clean single-threaded process.",
         note="heap observed through numpy's allocator only; OpenMP interleavings are the runtime's; routine alphabet and argument sets are finite (harness/purity_routines.py)",
@@ -205,7 +205,7 @@ CHECKS = {
              "angles plus simulated long walks with the expected state sequences, which are replayed through rotamer._rotamers (three input "
              "forms) and the phi/psi/chi callers; Transitions.tla gives the per-row first-difference definition and every state sequence "
              "in scope is replayed through disorder.transitions (1-D, 2-D, ragged).",
-        note="angles on a half-degree grid that avoids gate values; boundary sets [0,180,360], [0,160,360], [0,120,240,360]",
+        note="angles on a half-degree grid that avoids gate values; boundary sets [0,180,360], [0,160,360], [0,120,240,360]; plus Disorder.tla: the order/disorder pipeline built on the transition bookkeeping (waiting times, disorder trajectories, weighted aggregation) replayed into cards/disorder.py",
         ref="6/C20"),
 }
 
